@@ -61,7 +61,7 @@ def implied_edges(body, via_blocks=(), via_edges=()):
             if c[0] != "phi" or len(c) < 4:
                 continue
             ds = body.defs().get(c[1], [])
-            if not ds or not all(d[0] in ("assign", "call") for d in ds):
+            if not ds or not all(d[0] in ("assign", "call") for d in ds) or c[1] in body.mut_borrowed():
                 continue
             for value in (True, False):
                 es = [(bb, t, lab) for (t, lab, m) in si["edges"] if m is value]
